@@ -121,16 +121,20 @@ def helper_in_arm(c, arm, roots):
     return None
 
 
-def variant_cells(c, fn, roots):
-    """Inside an enum helper: kinds per VariantDetails arm (relative to the kinds that reach the match)."""
-    h = c.hir[fn]
-    f = c.fns[fn]
-    v = None
-    for i, t in enumerate(f["inputs"]):
-        if kinds.is_value_ty(t) and i < len(h["params"]):
-            for x, _ in walk(h["params"][i]):
-                if x.get("k") == "bind":
-                    v = x["name"]
+def variant_cells(c, fn, roots, v=None):
+    """Inside an enum helper: kinds per VariantDetails arm (relative to the kinds that reach the match).
+    `fn` is the helper's name, or (when the helper was written / inlined in place) a {"body": arm body} record with the
+    name `v` of the value it analyses."""
+    if isinstance(fn, dict):
+        h = fn
+    else:
+        h = c.hir[fn]
+        f = c.fns[fn]
+        for i, t in enumerate(f["inputs"]):
+            if kinds.is_value_ty(t) and i < len(h["params"]):
+                for x, _ in walk(h["params"][i]):
+                    if x.get("k") == "bind":
+                        v = x["name"]
     m = None
     for n, _ in nodes(h["body"], "match"):
         if n.get("src") == "normal" and "VariantDetails" in c.ty(n.get("scty")):
@@ -170,6 +174,7 @@ def run(facts, rep, tier):
     run_d8(facts, rep)
     run_d9(facts, rep)
     run_d10(facts, rep)
+    run_d11(facts, rep)
     val, ren = find_mirror(c)
     if not rep.floor("C06.D1", "default validator / renderer pair", (1 if val else 0) + (1 if ren else 0), 2):
         return
@@ -230,16 +235,24 @@ def run(facts, rep, tier):
         b = rc.get(key)
         if not a or not b:
             continue
-        hv = helper_in_arm(c, a[1], roots)
-        hr = helper_in_arm(c, b[1], roots)
+        def has_variant_table(arm):
+            return any(n_.get("k") == "match" and n_.get("src") == "normal" and "VariantDetails" in c.ty(n_.get("scty")) for n_, _ in walk(arm["body"]))
+        hv = {"body": a[1]["body"]} if has_variant_table(a[1]) else helper_in_arm(c, a[1], roots)
+        hr = {"body": b[1]["body"]} if has_variant_table(b[1]) else helper_in_arm(c, b[1], roots)
         if not hv or not hr:
             continue
         npairs += 1
-        va = variant_cells(c, hv, roots)
-        vb = variant_cells(c, hr, roots)
+        va = variant_cells(c, hv, roots, value_param(c, val))
+        vb = variant_cells(c, hr, roots, value_param(c, ren))
+        if isinstance(hv, dict):
+            hv = val
+        if isinstance(hr, dict):
+            hr = ren
         for vk in sorted(set(va) | set(vb)):
             if vk == "_":
                 continue
+            if key == "Enum/Internal" and vk in ("Item", "Tuple"):
+                continue  # internally tagged variants are only ever built Simple or Struct (C01.W1/I11 decides that)
             x = va.get(vk, va.get("_"))
             y = vb.get(vk, vb.get("_"))
             if x is None or y is None:
@@ -639,6 +652,21 @@ def run_w2(facts, rep):
     rep.floor("C06.W2", "feeds of the per-property default check", n_feed, 2)
 
 
+NULL_TEST = re.compile(r"\.default Eq Some\((serde_json::)?Value::Null\)|Some\((serde_json::)?Value::Null\) Eq \S*\.default")
+
+
+def null_guarded(anc):
+    """an enclosing arm guard or `if` condition tests that the (same schema's) default is `null`"""
+    chain = list(anc)
+    for i_, a in enumerate(chain):
+        if a.get("k") is None and "pat" in a and a.get("guard") is not None and NULL_TEST.search(src(a["guard"])):
+            if i_ + 1 < len(chain) and chain[i_ + 1] is a.get("body") or i_ + 1 >= len(chain):
+                return True
+        if a.get("k") == "if" and NULL_TEST.search(src(a["cond"])) and i_ + 1 < len(chain) and chain[i_ + 1] is a.get("then"):
+            return True
+    return False
+
+
 def run_w3(facts, rep):
     c = facts.impl
     reads = writes = 0
@@ -653,6 +681,10 @@ def run_w3(facts, rep):
                     w = "`%s`" % src(par)[:80]
                 elif par.get("k") == "ref" and par.get("mut"):
                     w = "`&mut %s`" % src(n)[:60]
+                if w and par.get("k") == "assign" and n.get("name") == "default" and src(par.get("r")) in ("None", "Option::None") and null_guarded(anc):
+                    rep.ob("C06.W3", "null-default-removal:%s" % h["fn"], True, "%s under a test that the default is `null`: the one allowed rewrite (the inner type of an Option does not see the Option's null default)" % w, par.get("sp"), nontrivial=False)
+                    reads += 1
+                    continue
                 if w:
                     writes += 1
                     rep.ob("C06.W3", "annotations-read-only:%s#%d" % (h["fn"], writes), False,
@@ -726,6 +758,7 @@ def run_d7(facts, rep):
 
 def run_d8(facts, rep):
     from lib import Canon, binding_let
+    from lib import strip_refs as strip_refs_
     c = facts.impl
     sites = []
     for h in c.user_fns():
@@ -740,10 +773,20 @@ def run_d8(facts, rep):
                         sites.append((h, n, lit[0]))
     if not rep.floor("C06.D8", "rewrites of a nullable type array into Option<T>", len(sites), 1):
         return
+    # the removal may also sit in convert_option itself (then every caller gets it)
+    in_callee = False
+    for hh in c.user_fns():
+        if hh["fn"].endswith("TypeSpace::convert_option"):
+            for x, xa in walk(hh["body"]):
+                if x.get("k") == "assign" and strip_refs_(x["l"]).get("k") == "field" and strip_refs_(x["l"]).get("name") == "default" and src(x["r"]) in ("None", "Option::None") and null_guarded(xa):
+                    in_callee = True
     for h, n, lit in sites:
         cn = Canon(c, h, 2)
         md = dict((f_[0], f_[1]) for f_ in lit["fields"]).get("metadata")
         t = cn.r(md) if md is not None else ""
+        if md is None and in_callee:
+            rep.ob("C06.D8", "null-default-stays-with-the-option:%s" % h["fn"], True, "convert_option removes a `null` default (and nothing else) before converting the inner type", n.get("sp"))
+            continue
         ok = md is not None and re.search(r"Some\(_\) if \(\S*\.default Eq Some\(Value::Null\)\) => Some\(Box<T>::new\(Metadata\{default: None\}\)\) \| _ => ", t) is not None
         rep.ob("C06.D8", "null-default-stays-with-the-option:%s" % h["fn"], ok,
                "the inner schema's annotations are the outer ones with a `null` default (and nothing else) removed" if ok else
@@ -898,3 +941,35 @@ def run_d10(facts, rep):
     else:
         okc = False
     rep.ob("C06.D10", "positive-control", okc, "the matcher fires on an unguarded `f as i64` and not on a guarded one", nontrivial=False)
+
+
+# ---------------------------------------------------------------- D11 a fixed-length array default has that length
+def run_d11(facts, rep):
+    """`[T; N]` has no shorter or longer value: wherever the validator accepts a default for the fixed-length array kind,
+    the array's declared length has been compared on the way (an enclosing condition or an earlier exit mentions it).
+    Otherwise a default of another length (e.g. `[]`) is accepted and rendered as an ill-typed array expression."""
+    from lib import dominating_conditions, Canon, block_last
+    c = facts.impl
+    val, ren = find_mirror(c)
+    if not val:
+        return
+    h = c.hir[val]
+    m = details_match(c, h)
+    arms = [a for a in (m["arms"] if m else []) if [t.split("::")[-1] for t in pat_top_variants(a["pat"])] == ["Array"]]
+    if not rep.floor("C06.D11", "validator arm for fixed-length arrays", len(arms), 1):
+        return
+    arm = arms[0]
+    lens = [b["name"] for b, _ in walk(arm["pat"]) if b.get("k") == "bind"]
+    length_name = lens[-1] if lens else None
+    cn = Canon(c, h, 4)
+    n_ok = 0
+    for x, xa in walk(arm["body"]):
+        if x.get("k") == "call" and x.get("res") == "ctor" and (x.get("fn") or "").split("::")[-1] == "Ok" and not any(a_.get("k") == "closure" for a_ in xa):
+            n_ok += 1
+            conds = dominating_conditions(xa, x)
+            texts = [cn.r(cd) for cd in conds]
+            mentions = any(re.search(r"~Array\.1\b|\b%s\b" % re.escape(length_name or "\0"), t) for t in texts)
+            rep.ob("C06.D11", "fixed-length-default-has-that-length#%d" % n_ok, mentions,
+                   "accepted only after the declared length was compared" if mentions else
+                   "`%s` accepts a default for a fixed-length array on a path that never looks at the declared length: a default of another length (e.g. `[]` for [T; 3]) is accepted and rendered as an array expression of the wrong length, which does not compile" % src(x)[:40], x.get("sp"))
+    rep.floor("C06.D11", "accepting exits of the fixed-length array arm", n_ok, 1)
